@@ -4,6 +4,7 @@ import (
 	"encoding/json"
 	"fmt"
 	"os"
+	"strings"
 
 	"github.com/blinklabs-io/gouroboros/ledger"
 
@@ -270,7 +271,7 @@ func fixtureMonitor(c *vh.Ctx) error {
 }
 
 func run(c *vh.Ctx) error {
-	c.Res.Rule = "synthetic headers [body, sig] with 0..20 body fields, protocol major 0..64 (quick) / 0..300 (thorough) plus 2^8, 2^16, 2^32, 2^63, 2^64-1 and random, as a minimal or 8-byte unsigned integer, a negative integer, a text string, an empty version array or a non-array, in both header layouts; plus every real block fixture (Byron main, synthetic EBB, Shelley..Conway mainnet, Dijkstra testnet) through NewBlockFromCbor, NewBlockHeaderFromCbor, NewTransactionFromCbor, DetermineBlockType, both maps and GetEraById. Distinct by (length, kind, version); non-trivial = a 10- or 15-field header with an unsigned version."
+	c.Res.Rule = "synthetic headers [body, sig] with 0..20 body fields, protocol major 0..64 (quick) / 0..300 (thorough) plus 2^8, 2^16, 2^32, 2^63, 2^64-1 and random, as a minimal or 8-byte unsigned integer, a negative integer, a text string, an empty version array or a non-array, in both header layouts; plus every real block fixture (Byron main, synthetic EBB, Shelley..Conway mainnet, Dijkstra testnet) through NewBlockFromCbor, NewBlockFromCborWithOffsets, NewBlockHeaderFromCbor, NewTransactionFromCbor, DetermineBlockType, both maps and GetEraById; plus a history class: every entry point on every fixture with every ordered pair (t1, t2) of type ids 0..9 in one process - the second answer must be that of a fresh process. Distinct by (length, kind, version); non-trivial = a 10- or 15-field header with an unsigned version."
 	c.Res.Modelled = []string{
 		"Block.Type()/Era() being constants of the Go type chosen by the switch is observed on fixtures (Gen.block_dispatch), not derived from the source",
 		"CBOR decoding of the header into `any` is not modelled: the model receives the number of body fields and the version field's value",
@@ -302,11 +303,36 @@ func run(c *vh.Ctx) error {
 			return nil
 		}
 		// a fixture-level finding: re-run the fixture monitor
+		var hr hrep
+		if json.Unmarshal(rp.Replay, &hr) == nil && hr.Entry != "" {
+			fx, err := loadFixtures()
+			if err != nil {
+				return err
+			}
+			hf := c.NewCaseFile("c36hist", strings.Replace(header, "Open Scope N_scope.", "Open Scope string_scope.\nOpen Scope N_scope.", 1))
+			hf.Func, hf.Type = "hist_mismatches", "hcase"
+			for ei, e := range entries {
+				for fi := range fx {
+					if e == hr.Entry && fx[fi].Name == hr.Fixture {
+						historyPair(c, hf, ei, &fx[fi], hr.Prev, hr.T, true)
+					}
+				}
+			}
+			hf.Flush()
+			return nil
+		}
 		return fixtureMonitor(c)
 	}
 	if err := fixtureMonitor(c); err != nil {
 		return err
 	}
+	hf := c.NewCaseFile("c36hist", strings.Replace(header, "Open Scope N_scope.", "Open Scope string_scope.\nOpen Scope N_scope.", 1))
+	hf.Func, hf.Type = "hist_mismatches", "hcase"
+	hf.SetShardSize(400)
+	if err := historyMonitor(c, hf); err != nil {
+		return err
+	}
+	hf.Flush()
 	maxPv := uint64(c.Pick(64, 300))
 	extra := []uint64{255, 256, 65535, 65536, 1 << 32, 1<<63 - 1, 1 << 63, ^uint64(0) - 1, ^uint64(0)}
 	for i := 0; i < c.Pick(10, 200); i++ {
